@@ -33,9 +33,11 @@
      UnsetBoundaryLeaves  FALSE: a boundary leaf hanging directly under a binary node is left in place, so
                           a claim that omits the existing `first` key verifies (DESIGN H10, left-edge
                           omission); TRUE: it is removed and must be claimed.
-     ForkByPosition       FALSE: unsetInternal finds the fork point of the two boundary paths by pointer
-                          inequality of the two children, so it walks past the fork when both children are
-                          one aliased object; TRUE: by comparing the key bits.
+     CopyOnResolve        FALSE: proofToPath links the objects of the proof set themselves; two positions with
+                          the same commitment are ONE object, so what unset cuts below one position is cut
+                          below the other, and unsetInternal (fork point = pointer inequality of the two
+                          children) walks past a fork whose children are that one object; TRUE: every
+                          resolution copies the node.
      RehashResolved       FALSE: proofToPath trusts the key a node is stored under; only the general case
                           re-hashes (through the final root comparison), the single-element and empty
                           cases never do, so there a node altered in place under its old key forges a
@@ -50,7 +52,7 @@
    the honest proof of the true claim is accepted. *)
 EXTENDS Proof
 
-CONSTANTS DirtyOnUnset, UnsetBoundaryLeaves, ForkByPosition, RehashResolved
+CONSTANTS DirtyOnUnset, UnsetBoundaryLeaves, CopyOnResolve, RehashResolved
 
 ----------------------------------------------------------------------------
 (* helpers over bit sequences (core/trie BitArray) *)
@@ -71,8 +73,8 @@ NilRef == [k |-> "nil", h |-> NoHash]
 NodeRef(id) == [k |-> "node", h |-> id]
 SideOfBit(b) == IF b = 1 THEN "r" ELSE "l"
 SideFor(n, rem) == IF n.t = "edge" THEN "c" ELSE SideOfBit(BitAt(rem, 0))
-SetChild(St, id, side, ref) == [St EXCEPT ![id] = [@ EXCEPT ![side] = ref]]
-Mark(St, id, what) == IF what \in DirtyOnUnset THEN [St EXCEPT ![id] = [@ EXCEPT !.cache = NoHash]] ELSE St
+SetChild(St, id, side, ref) == [St EXCEPT ![id] = [St[id] EXCEPT ![side] = ref]]
+Mark(St, id, what) == IF what \in DirtyOnUnset THEN [St EXCEPT ![id] = [St[id] EXCEPT !.cache = NoHash]] ELSE St
 
 StoreOf(pf) == [h \in {pf[i].key : i \in 1..Len(pf)} |-> Lookup(pf, h)]
 \* GetRangeProof: Prove(first) then Prove(last) into one set
@@ -83,27 +85,39 @@ RProof(m, first, last, cached) ==
 ObjHash(n) == IF n.cache # NoHash THEN n.cache ELSE NodeHash(n)
 
 ----------------------------------------------------------------------------
-(* proofToPath (core/trie2/proof.go:299): resolve the path of `rem` below object id, linking children *)
+(* proofToPath (core/trie2/proof.go:299): resolve the path of `key` below object id, linking children.
+   PS is the proof set (hash -> node as delivered); St holds the objects resolved so far.  The code links the
+   objects OF THE PROOF SET themselves, so two positions with the same commitment resolve to one object
+   (identity = hash); with CopyOnResolve every resolution yields an object of its own (identity = hash, position). *)
+Id(h, prefix) == IF CopyOnResolve THEN <<h, prefix>> ELSE <<h>>
 LOk(St, val) == [s |-> "ok", st |-> St, val |-> val]
 LErr == [s |-> "err"]
-Fetch(St, h) == h \in DOMAIN St /\ (RehashResolved => ObjHash(St[h]) = h)
-RECURSIVE Link(_, _, _, _, _)
-Link(St, id, rem, allowNE, fuel) ==
+Fetch(PS, h) == h \in DOMAIN PS /\ (RehashResolved => ObjHash(PS[h]) = h)
+Resolve(St, PS, h, prefix) == IF Id(h, prefix) \in DOMAIN St THEN St ELSE PutF(St, Id(h, prefix), PS[h])
+RECURSIVE Link(_, _, _, _, _, _, _)
+Link(St, PS, id, key, pos, allowNE, fuel) ==
   IF fuel = 0 THEN LErr
   ELSE LET n == St[id]
+           rem == DropSafe(key, pos)
            side == SideFor(n, rem)
-           rem2 == IF n.t = "edge" THEN DropSafe(rem, Len(n.p)) ELSE DropSafe(rem, 1) IN
+           pos2 == IF n.t = "edge" THEN pos + Len(n.p) ELSE pos + 1 IN
        IF (n.t = "edge" /\ ~EqualMSBs(n.p, rem)) \/ n[side].k = "nil"
        THEN IF allowNE THEN LOk(St, NoHash) ELSE LErr
        ELSE LET child == n[side] IN
-            CASE child.k = "node" -> Link(St, child.h, rem2, allowNE, fuel - 1)
-              [] child.k = "hash" -> IF ~Fetch(St, child.h) THEN LErr
-                                     ELSE Link(SetChild(St, id, side, NodeRef(child.h)), child.h, rem2, allowNE, fuel - 1)
+            CASE child.k = "node" -> Link(St, PS, child.h, key, pos2, allowNE, fuel - 1)
+              [] child.k = "hash" ->
+                 IF ~Fetch(PS, child.h) THEN LErr
+                 ELSE LET cid == Id(child.h, Take(key, IF pos2 > Len(key) THEN Len(key) ELSE pos2)) IN
+                      Link(SetChild(Resolve(St, PS, child.h, Take(key, IF pos2 > Len(key) THEN Len(key) ELSE pos2)), id, side, NodeRef(cid)),
+                           PS, cid, key, pos2, allowNE, fuel - 1)
               [] child.k = "value" -> LOk(St, child.h)
-LinkRoot(St, root, key, allowNE) == IF ~Fetch(St, root) THEN LErr ELSE Link(St, root, key, allowNE, H + 3)
+RootId(root) == Id(root, <<>>)
+LinkRoot(St, PS, root, key, allowNE) ==
+  IF ~Fetch(PS, root) THEN LErr ELSE Link(Resolve(St, PS, root, <<>>), PS, RootId(root), key, 0, allowNE, H + 3)
 
 ----------------------------------------------------------------------------
 (* unsetInternal / handleEdgeFork / handleBinaryFork / unset (core/trie2/proof.go:376-566) *)
+NoParent == <<>>
 UOk(St, e) == [s |-> "ok", st |-> St, empty |-> e]
 UErr == [s |-> "err"]
 UPanic == [s |-> "panic"]
@@ -145,7 +159,7 @@ HandleBinFork(St, id, L, R, pos) ==
 
 HandleEdgeFork(St, id, pid, L, R, pos, fl, fr) ==
   LET n == St[id]
-      DropFromParent(key) == IF pid = NoHash THEN UOk(St, TRUE) ELSE NilChildOfBin(St, pid, BitAt(key, pos - 1)) IN
+      DropFromParent(key) == IF pid = NoParent THEN UOk(St, TRUE) ELSE NilChildOfBin(St, pid, BitAt(key, pos - 1)) IN
   IF (fl = -1 /\ fr = -1) \/ (fl = 1 /\ fr = 1) THEN UErr
   ELSE IF fl # 0 /\ fr # 0 THEN DropFromParent(L)
   ELSE IF fr # 0
@@ -169,8 +183,7 @@ UInt(St, ref, pid, pos, L, R, fuel) ==
                 rb == BitAt(R, pos)
                 ln == n[SideOfBit(lb)]
                 rn == n[SideOfBit(rb)]
-                same == IF ForkByPosition THEN lb = rb
-                        ELSE lb = rb \/ (ln.k = "node" /\ rn.k = "node" /\ ln.h = rn.h)
+                same == lb = rb \/ (ln.k = "node" /\ rn.k = "node" /\ ln.h = rn.h)    \* leftnode == rightnode (pointers)
                 fork == ln.k = "nil" \/ rn.k = "nil" \/ ~same
                 St1 == Mark(St, id, IF fork THEN "fork" ELSE "above") IN
             IF fork THEN HandleBinFork(St1, id, L, R, pos)
@@ -251,15 +264,16 @@ ProofDataOK(cl) == /\ \A i \in 1..(Len(cl) - 1) : KLeq(cl[i].k, cl[i + 1].k)
                    /\ \A i \in 1..Len(cl) : cl[i].v # 0
 WithMore(hr) == IF hr = "panic" THEN Pan ELSE Acc(hr = "yes")
 
-VRGeneral(root, first, last, cl, St0) ==
-  LET l1 == LinkRoot(St0, root, first, TRUE) IN
+NoObjects == [x \in {} |-> NoHash]
+VRGeneral(root, first, last, cl, PS) ==
+  LET l1 == LinkRoot(NoObjects, PS, root, first, TRUE) IN
   IF l1.s # "ok" THEN Rej
-  ELSE LET l2 == LinkRoot(l1.st, root, last, TRUE) IN
+  ELSE LET l2 == LinkRoot(l1.st, PS, root, last, TRUE) IN
   IF l2.s # "ok" THEN Rej
-  ELSE LET u == UInt(l2.st, NodeRef(root), NoHash, 0, first, last, H + 3) IN
+  ELSE LET u == UInt(l2.st, NodeRef(RootId(root)), NoParent, 0, first, last, H + 3) IN
   IF u.s = "panic" THEN Pan
   ELSE IF u.s = "err" THEN Rej
-  ELSE LET T0 == Mat(u.st, NodeRef(root), H + 3)
+  ELSE LET T0 == Mat(u.st, NodeRef(RootId(root)), H + 3)
            T1 == InsAll(IF u.empty THEN Nil ELSE T0, cl, 1) IN
        IF RootHashT(T1) # root THEN Rej ELSE WithMore(HasRight(T0, last))
 
@@ -269,17 +283,17 @@ VRange(root, first, cl, pf, whole) ==
   ELSE IF root = Empty /\ EmptyTrieVerifies /\ Len(cl) = 0 THEN Acc(FALSE)
   ELSE LET St0 == StoreOf(pf) IN
   IF Len(cl) = 0
-  THEN LET l == LinkRoot(St0, root, first, TRUE) IN
+  THEN LET l == LinkRoot(NoObjects, St0, root, first, TRUE) IN
        IF l.s # "ok" THEN Rej
        ELSE IF l.val # NoHash THEN Rej
-       ELSE LET hr == HasRight(Mat(l.st, NodeRef(root), H + 3), first) IN
+       ELSE LET hr == HasRight(Mat(l.st, NodeRef(RootId(root)), H + 3), first) IN
             IF hr = "panic" THEN Pan ELSE IF hr = "yes" THEN Rej ELSE Acc(FALSE)
   ELSE LET last == cl[Len(cl)].k IN
   IF Len(cl) = 1 /\ first = last
-  THEN LET l == LinkRoot(St0, root, first, FALSE) IN
+  THEN LET l == LinkRoot(NoObjects, St0, root, first, FALSE) IN
        IF l.s # "ok" THEN Rej
        ELSE IF l.val # Leaf(cl[1].v) THEN Rej
-       ELSE WithMore(HasRight(Mat(l.st, NodeRef(root), H + 3), first))
+       ELSE WithMore(HasRight(Mat(l.st, NodeRef(RootId(root)), H + 3), first))
   ELSE IF ~KLess(first, last) THEN Rej
   ELSE VRGeneral(root, first, last, cl, St0)
 
@@ -316,13 +330,21 @@ WholeClaims(m) ==
   {[m |-> IF om = {} THEN "true" ELSE "omit", cl |-> SortPairs(PairsOf(m, T \ om)), last |-> CHOOSE k \in Keys : TRUE, whole |-> TRUE] :
       om \in {{}} \cup {{x} : x \in T}}
 
-\* the contract
+\* the contract.  ClaimTrue: the claim is exactly the trie's content in [first, last] (what an honest responder
+\* sends; it must be accepted).  ClaimHolds: what acceptance may establish - every claimed pair is a pair of the
+\* trie and no pair of the trie in [first, last] is missing (a claim that additionally lists a TRUE pair below
+\* `first` is harmless: the pair is authenticated by the same root comparison).
 ClaimSet(c) == {c.cl[i] : i \in 1..Len(c.cl)}
+NoDup(c) == \A i, j \in 1..Len(c.cl) : c.cl[i].k = c.cl[j].k => i = j
 ClaimTrue(m, first, c) ==
-  IF c.whole THEN ClaimSet(c) = PairsOf(m, PresentKeys(m)) /\ Len(c.cl) = Cardinality(PresentKeys(m))
+  IF c.whole THEN ClaimSet(c) = PairsOf(m, PresentKeys(m)) /\ NoDup(c)
   ELSE IF Len(c.cl) = 0 THEN \A k \in PresentKeys(m) : KLess(k, first)
-  ELSE /\ ClaimSet(c) = PairsOf(m, InRange(m, first, c.last))
-       /\ Len(c.cl) = Cardinality(InRange(m, first, c.last))
+  ELSE ClaimSet(c) = PairsOf(m, InRange(m, first, c.last)) /\ NoDup(c)
+ClaimHolds(m, first, c) ==
+  IF c.whole \/ Len(c.cl) = 0 THEN ClaimTrue(m, first, c)
+  ELSE /\ ClaimSet(c) \subseteq PairsOf(m, PresentKeys(m))
+       /\ PairsOf(m, InRange(m, first, c.last)) \subseteq ClaimSet(c)
+       /\ NoDup(c)
 MoreTrue(m, c) == ~c.whole /\ Len(c.cl) > 0 /\ \E k \in PresentKeys(m) : KLess(c.last, k)
 
 \* the verifier on claim c with the honest proof of provenance prov ("mem" | "wire"), tampered by tm
@@ -344,36 +366,48 @@ NodeAliased(m) ==
 LeftEdgeOpen(m, first, c) ==
   \* the claim is the truth without the existing `first` key (a leaf left in place by unset)
   /\ ~c.whole /\ Len(c.cl) > 0 /\ m[first] # 0
-  /\ ClaimSet(c) = PairsOf(m, InRange(m, first, c.last) \ {first})
-  /\ Len(c.cl) = Cardinality(InRange(m, first, c.last)) - 1
+  /\ ClaimSet(c) = PairsOf(m, InRange(m, first, c.last) \ {first}) /\ NoDup(c)
 KnownOpen(m, first, c) ==
   \/ ~UnsetBoundaryLeaves /\ LeftEdgeOpen(m, first, c)
-  \/ ~ForkByPosition /\ NodeAliased(m)
+  \/ ~CopyOnResolve /\ NodeAliased(m)
 
-Firsts == Keys
+RFirsts == Keys
 HonestSound(m) ==
-  \A first \in Firsts, prov \in Provs :
-    \A c \in ClaimsFor(m, first) \cup WholeClaims(m) :
+  \A first \in RFirsts, prov \in Provs :
+    \A c \in ClaimsFor(m, first) \cup (IF BitsVal(first) = 0 THEN WholeClaims(m) ELSE {}) :
       LET o == Verdict(m, first, c, prov, [op |-> "none"]) IN
-      /\ o.r = "accept" => (ClaimTrue(m, first, c) /\ o.more = MoreTrue(m, c)) \/ KnownOpen(m, first, c)
-      /\ (ClaimTrue(m, first, c) /\ (PresentKeys(m) # {} \/ EmptyTrieVerifies) /\ ~(~ForkByPosition /\ NodeAliased(m)))
+      /\ o.r = "accept" => (ClaimHolds(m, first, c) /\ o.more = MoreTrue(m, c)) \/ KnownOpen(m, first, c)
+      /\ (ClaimTrue(m, first, c) /\ (PresentKeys(m) # {} \/ EmptyTrieVerifies) /\ ~(~CopyOnResolve /\ NodeAliased(m)))
             => o = Acc(MoreTrue(m, c))
 NoPanic(m) ==
-  \A first \in Firsts, prov \in Provs :
+  \A first \in RFirsts, prov \in Provs :
     \A c \in ClaimsFor(m, first) : Verdict(m, first, c, prov, [op |-> "none"]).r # "panic"
 
 \* tampered proof nodes: with a true or a singly falsified claim, an accepted claim is true
 TamperClaims(m, first) == {c \in ClaimsFor(m, first) : c.m \in {"true", "alter-value", "empty"} \/ (c.m = "omit" /\ Len(c.cl) + 1 = Cardinality(InRange(m, first, c.last)))}
-TamperSound(m) ==
-  \A first \in Firsts :
-    \A c \in TamperClaims(m, first) :
+\* the cases of VerifyRangeProof: only "general" recomputes the root from the proof nodes
+CaseOf(first, c) == IF c.whole THEN "whole" ELSE IF Len(c.cl) = 0 THEN "empty"
+                    ELSE IF Len(c.cl) = 1 /\ c.cl[1].k = first THEN "single" ELSE "general"
+TamperSound(m, cases, modes) ==
+  \A first \in RFirsts :
+    \A c \in {x \in TamperClaims(m, first) : CaseOf(first, x) \in cases} :
       LET pf == ProofFor(m, first, c, "wire") IN
       \A tm \in RTampers(pf) :
-        REnabled(pf, tm) =>
+        (REnabled(pf, tm) /\ (tm.op \in {"none", "drop"} \/ tm.mode \in modes)) =>
           LET o == VRange(Root(m), first, c.cl, Apply(pf, first, tm), FALSE) IN
-          o.r = "accept" => ClaimTrue(m, first, c) \/ KnownOpen(m, first, c)
+          o.r = "accept" => ClaimHolds(m, first, c) \/ KnownOpen(m, first, c)
 
+\* the contract without any open verdict (what the repaired design satisfies; each switch alone breaks it)
+StrictContract(m) ==
+  \A first \in RFirsts, prov \in Provs :
+    \A c \in ClaimsFor(m, first) \cup (IF BitsVal(first) = 0 THEN WholeClaims(m) ELSE {}) :
+      LET o == Verdict(m, first, c, prov, [op |-> "none"]) IN
+      /\ o.r = "accept" => ClaimHolds(m, first, c) /\ o.more = MoreTrue(m, c)
+      /\ ClaimTrue(m, first, c) => o = Acc(MoreTrue(m, c))
 RangeContract == HonestSound(kv)
+RangeContractStrict == StrictContract(kv)
 RangeNoPanic == NoPanic(kv)
-RangeTamperSound == TamperSound(kv)
+RangeTamperSound == TamperSound(kv, {"empty", "single", "general"}, Modes)
+\* the code as it is: sound against dropped nodes and nodes stored under their new hash
+RangeTamperSoundRekey == TamperSound(kv, {"empty", "single", "general"}, {"rekey"})
 =============================================================================
